@@ -160,7 +160,7 @@ func monitor(sc scenario, st *Store, t0 time.Time) (key, what string) {
 		for id := range out.Ingesters {
 			ids[id] = true
 		}
-		for id := range ids {
+		for _, id := range sortedKeys(ids) {
 			if id == w.Writer {
 				continue
 			}
@@ -197,7 +197,8 @@ func monitor(sc scenario, st *Store, t0 time.Time) (key, what string) {
 			if len(b.Tokens) > 0 && !inherited && !tokensChosen[w.Writer] && sp.tokensFile == "" {
 				tokensChosen[w.Writer] = true
 				// this is the call that chose the tokens: none may be visible as another instance's token in its input
-				for id, o := range in.Ingesters {
+				for _, id := range sortedKeys(in.Ingesters) {
+					o := in.Ingesters[id]
 					if id == w.Writer {
 						continue
 					}
@@ -262,7 +263,8 @@ func runC08(t *testing.T, sc scenario, ch *sched.Chooser) (res sched.Result) {
 			now := time.Now().Add(quantum) // the tick about to happen: check BEFORE advancing, i.e. state at current time
 			_ = now
 			cur := descOf(st.Peek(ringKey))
-			for id, in := range insts {
+			for _, id := range sortedKeys(insts) {
+				in := insts[id]
 				if in.spec.noHeartbeat || stopAsked[id] || slow[id] {
 					continue
 				}
@@ -278,9 +280,16 @@ func runC08(t *testing.T, sc scenario, ch *sched.Chooser) (res sched.Result) {
 				if in.spec.heartbeat > 0 {
 					hb = in.spec.heartbeat
 				}
-				// the basic lifecycler starts its heartbeat ticker only after the tokens-observe phase of its
-				// start-up, so its first interval is one observe period longer (design of the start-up, not a lapse)
-				if age := time.Since(time.Unix(ent.Timestamp, 0)); age > hb+time.Second+in.spec.observe {
+				// the basic lifecycler heartbeats on its own ticker during the tokens-observe phase of its start-up
+				// and starts a fresh ticker when it reaches Running, so the interval spanning the end of that
+				// phase is longer by the part of the observe period after the phase's last tick (observe mod period;
+				// token verification cannot fail on this store, so the phase is exactly one observe period long).
+				// The full lifecycler has one ticker for its whole life.
+				extra := time.Duration(0)
+				if in.spec.basic {
+					extra = in.spec.observe % hb
+				}
+				if age := time.Since(time.Unix(ent.Timestamp, 0)); age > hb+time.Second+extra {
 					fail("heartbeat-late", "at +%v the entry of %s carries a heartbeat %v old although the store accepted every write at once (period %v)", elapsed(), id, age, hb)
 				}
 			}
@@ -317,7 +326,8 @@ func runC08(t *testing.T, sc scenario, ch *sched.Chooser) (res sched.Result) {
 						case !ok || ent.State != ring.ACTIVE || len(ent.Tokens) == 0:
 							sched.Obs(fmt.Sprintf("READY-VIOLATION %s reported ready at +%v but its ring entry is %s", a.who, elapsed(), show(ent, ok)))
 						case in.spec.ringHealth:
-							for id, o := range cur.Ingesters {
+							for _, id := range sortedKeys(cur.Ingesters) {
+								o := cur.Ingesters[id]
 								if o.State != ring.ACTIVE || time.Since(time.Unix(o.Timestamp, 0)) > hbTimeout {
 									sched.Obs(fmt.Sprintf("READY-VIOLATION %s reported ready at +%v but member %s is %s", a.who, elapsed(), id, instStr(o)))
 								}
@@ -359,7 +369,8 @@ func runC08(t *testing.T, sc scenario, ch *sched.Chooser) (res sched.Result) {
 		// final expectations at the horizon
 		cur := descOf(st.Peek(ringKey))
 		var fin []string
-		for id, in := range insts {
+		for _, id := range sortedKeys(insts) {
+			in := insts[id]
 			ent, ok := cur.Ingesters[id]
 			fin = append(fin, id+"="+show(ent, ok))
 			if viol == "" && !stopAsked[id] && !slow[id] && elapsed() >= horizon {
@@ -415,6 +426,10 @@ func scenariosC08() []scenario {
 		{name: "full-stop-unregister", lcs: []lcSpec{{id: "a", unregister: true}, {id: "b"}}, actions: []action{{at: 6 * time.Second, kind: "stop", who: "a"}}, horizon: 14 * time.Second},
 		{name: "full-stop-keep", lcs: []lcSpec{{id: "a"}}, actions: []action{{at: 3 * time.Second, kind: "stop", who: "a"}, {at: 1 * time.Second, kind: "readonly-on", who: "a"}}, horizon: 12 * time.Second},
 		{name: "basic-two", lcs: []lcSpec{{id: "a", basic: true, unregister: true}, {id: "b", basic: true, observe: 2 * time.Second}}, actions: []action{{at: 7 * time.Second, kind: "stop", who: "a"}}, horizon: 14 * time.Second},
+		// heartbeat period <= observe period: the observe phase itself must heartbeat. The periods are chosen so that the
+		// start-up select never has the observe timer and a heartbeat tick ready together within the deviation bound
+		// (Go picks among ready cases at random, which no scheduler hook can decide).
+		{name: "basic-observe-long", lcs: []lcSpec{{id: "a", basic: true, heartbeat: 3 * time.Second, observe: 3250 * time.Millisecond}, {id: "b", basic: true, heartbeat: 3 * time.Second, observe: 6250 * time.Millisecond}}, horizon: 11 * time.Second},
 		{name: "basic-autoforget", seed: nil, lcs: []lcSpec{{id: "a", basic: true, autoForget: 8 * time.Second}, {id: "b", basic: true}}, actions: []action{{at: 2 * time.Second, kind: "stop", who: "b"}}, horizon: 22 * time.Second},
 		{name: "mixed", lcs: []lcSpec{{id: "a", joinAfter: 1500 * time.Millisecond}, {id: "b", basic: true}}, horizon: 14 * time.Second},
 		{name: "three-joiners", lcs: []lcSpec{{id: "a", joinAfter: 1500 * time.Millisecond}, {id: "b", joinAfter: 1500 * time.Millisecond}, {id: "c", basic: true}}, horizon: 9 * time.Second},
@@ -453,4 +468,14 @@ func TestC08(t *testing.T) {
 	if err := rep.Write(); err != nil {
 		t.Fatal(err)
 	}
+}
+
+// sortedKeys makes every oracle loop deterministic (violation messages are compared by the replay audit).
+func sortedKeys[V any](m map[string]V) []string {
+	ks := make([]string, 0, len(m))
+	for k := range m {
+		ks = append(ks, k)
+	}
+	sort.Strings(ks)
+	return ks
 }
